@@ -77,3 +77,4 @@ M("c18-clear-before-split", "C18", A, RC,
 M("c18-unix-send-eof-under-receive-guard", "C18", A, "UNIXSocketStream.send_eof", "        with self._send_guard:", "        with self._receive_guard:", ["R18-e"])
 M("c18-validate-socket-object-stays-blocking", "C18", "abc/_sockets.py", "_validate_socket", "    elif isinstance(sock_or_fd, socket.socket):\n        sock = sock_or_fd\n",
   "    elif isinstance(sock_or_fd, socket.socket):\n        return sock_or_fd\n", ["R18-f"])
+N("c18-n-validate-socket-setblocking-per-branch", "C18", "abc/_sockets.py", "_validate_socket", "    elif isinstance(sock_or_fd, socket.socket):\n        sock = sock_or_fd\n", "    elif isinstance(sock_or_fd, socket.socket):\n        sock = sock_or_fd\n        sock.setblocking(False)\n")
